@@ -151,18 +151,70 @@ def check_call_sites(ctx, db):
         ctx.check(ok, 'R-SHAPE', 'Cell::to_gds/limit@%d' % i.l, i.loc(), 'polygons above the limit are fractured with (max_points, precision) and every piece is written through Polygon::to_gds; others are written directly')
 
 
+def _modified(fn, name):
+    """sites where parameter `name` of fn is written: assignment, compound assignment, ++/--, address taken"""
+    out = []
+    for r in fn.walk():
+        if r.k != 'DeclRefExpr' or r.n != name or r.dk != 'param':
+            continue
+        cur, p = r, r.parent
+        while p is not None and p.k in ('ImplicitCastExpr', 'ParenExpr') and p.ck != 'LValueToRValue':
+            cur, p = p, p.parent
+        if p is None:
+            continue
+        if (is_assign(p) or p.k == 'CompoundAssignOperator') and _strip_casts(p.child('lhs')) is r:
+            out.append(p)
+        elif p.k == 'UnaryOperator' and p.op in ('++', '--', 'post++', 'post--', '&'):
+            out.append(p)
+    return out
+
+
+def check_limit_passthrough(ctx, db):
+    """R-PASS: the vertex limit and the precision the user gave reach Polygon::fracture unchanged. Every call of
+    Cell::to_gds hands over the caller's own `max_points` and `precision` (parameter or member of the writer /
+    library), and no function on the way writes to those parameters."""
+    n = 0
+    chain = [db.fn('gdstk::Cell::to_gds')]
+    for f in db.functions:
+        if f.body is None or not f.relfile().startswith(('src/', 'include/')):
+            continue
+        for c in f.walk():
+            if c.k != 'CXXMemberCallExpr' or c.callee != 'gdstk::Cell::to_gds':
+                continue
+            n += 1
+            ctx.touch(f)
+            if f not in chain:
+                chain.append(f)
+            args = c.args
+            for idx, want in ((2, 'max_points'), (3, 'precision')):
+                a = _strip_casts(args[idx]) if len(args) > idx else None
+                ok = a is not None and ((a.k == 'DeclRefExpr' and a.dk == 'param' and a.n == want) or (a.k == 'MemberExpr' and a.n == want and _strip_casts(a.child('base')) is not None and _strip_casts(a.child('base')).k == 'CXXThisExpr'))
+                ctx.check(ok, 'R-PASS', '%s/to_gds-arg:%s@%s' % (f.qn.replace('gdstk::', ''), want, c.loc()), c.loc(), 'the cell writer receives the caller\'s own `%s`' % want,
+                          'Cell::to_gds is given `%s` where the user\'s %s belongs: polygons are fractured to a different %s than the one requested' % (norm(args[idx].text()) if len(args) > idx else '?', want, 'vertex limit' if want == 'max_points' else 'rounding grid'))
+    for f in chain:
+        for want in ('max_points', 'precision'):
+            if not any((p.get('n') if isinstance(p, dict) else p.n) == want for p in f.params):
+                continue
+            w = _modified(f, want)
+            n += 1
+            ctx.check(not w, 'R-PASS', '%s/param-untouched:%s' % (f.qn.replace('gdstk::', ''), want), f.loc(), 'parameter `%s` is never written on its way to Polygon::fracture' % want,
+                      'parameter `%s` is modified at %s (`%s`) before it reaches Polygon::fracture: pieces are cut to a different %s than the caller asked for' % (want, w[0].loc() if w else '', norm(w[0].text())[:80] if w else '', 'limit' if want == 'max_points' else 'grid'))
+    ctx.require('R-PASS limit/precision hand-overs', n, 5)
+
+
 def run(ctx):
     db = ctx.db
     check_fracture(ctx, db)
     check_slice(ctx, db)
     check_call_sites(ctx, db)
+    check_limit_passthrough(ctx, db)
     C05.check_tree(ctx, db)
     from . import C20
     C20.check_heap(ctx, db)   # fracture sorts the vertex coordinates that become cut positions
 
 
 MANIFEST = dict(
-    text='Decides the structural necessary conditions of fracture/slice: immediate return below five; every piece inherits tag, repetition and properties through copiers; the work loop advances only past small-enough pieces and replaces a large one in place; the cut index is derived from the count of the very array it indexes (stays in bounds, cuts stay interior); all cuts.count+1 bins are allocated and collected; slice chains strips from the previous to the next rounded cut, skips empty strips, intersects with non-zero fill and stores interval i in result[i]; the result tree is walked completely; the three vertex-limit blocks of Cell::to_gds are clones that fracture with (max_points, precision) and write every piece through Polygon::to_gds. Region preservation, non-overlap, termination of re-slicing and the vertex bound themselves are value dependent and not decided.',
+    text='Decides the structural necessary conditions of fracture/slice: immediate return below five; every piece inherits tag, repetition and properties through copiers; the work loop advances only past small-enough pieces and replaces a large one in place; the cut index is derived from the count of the very array it indexes (stays in bounds, cuts stay interior); all cuts.count+1 bins are allocated and collected; slice chains strips from the previous to the next rounded cut, skips empty strips, intersects with non-zero fill and stores interval i in result[i]; the result tree is walked completely; the three vertex-limit blocks of Cell::to_gds are clones that fracture with (max_points, precision) and write every piece through Polygon::to_gds; every caller of Cell::to_gds hands over its own max_points and precision and no function on the way writes to those parameters (R-PASS). Region preservation, non-overlap, termination of re-slicing and the vertex bound themselves are value dependent and not decided.',
     note='Trusted: clang front end, gx, sa rules; Clipper semantics external.',
     technique='shape/def-use rules over typed ASTs (index-derivation, bin index by loop variable, strip chaining) + clone family',
     design='§4 C12')
